@@ -29,6 +29,7 @@ type Ledger struct {
 	Functions map[string]string `json:"functions"`   // key -> source hash
 	Obls      map[string]string `json:"obligations"` // name -> result
 	DeadExits map[string]bool   `json:"dead_exits"`
+	Locals    map[string][]string `json:"locals,omitempty"` // key -> declared locals "name|type" in source order
 }
 
 type KnownFinding struct {
@@ -209,6 +210,16 @@ func runCheck(repo, verif, id, tier string, writeLedger bool) int {
 	os.RemoveAll(work)
 	os.MkdirAll(work, 0o755)
 
+	// the ledger (what discharged on the tree the contracts were last proved on) is read first: VC generation consults
+	// it to tell a changed function from an unchanged one
+	ledPath := filepath.Join(verif, "ledger", id+".json")
+	var led Ledger
+	if data, err := os.ReadFile(ledPath); err == nil {
+		json.Unmarshal(data, &led)
+	}
+	if !writeLedger {
+		e.ledHash, e.ledLocals = led.Functions, led.Locals
+	}
 	var reps []*FuncReport
 	var all []*Obligation
 	for _, f := range pc.Functions {
@@ -242,12 +253,6 @@ func runCheck(repo, verif, id, tier string, writeLedger bool) int {
 	all = append(all, gobls...)
 
 	SolveAll(work, all, timeout, runtime.NumCPU())
-	// ledger
-	ledPath := filepath.Join(verif, "ledger", id+".json")
-	var led Ledger
-	if data, err := os.ReadFile(ledPath); err == nil {
-		json.Unmarshal(data, &led)
-	}
 	known := loadKnown(filepath.Join(verif, "known_findings.txt"))
 	// retry undecided obligations with a longer timeout, but only where a proof is expected
 	// (function unchanged w.r.t. the ledger); changed functions go straight to counterexample search
@@ -270,9 +275,12 @@ func runCheck(repo, verif, id, tier string, writeLedger bool) int {
 		SolveAll(work, retry, 30, runtime.NumCPU())
 	}
 	if writeLedger {
-		nl := Ledger{Property: id, Functions: map[string]string{}, Obls: map[string]string{}, DeadExits: map[string]bool{}}
+		nl := Ledger{Property: id, Functions: map[string]string{}, Obls: map[string]string{}, DeadExits: map[string]bool{}, Locals: map[string][]string{}}
 		for _, r := range reps {
 			nl.Functions[r.Key] = r.Hash
+			if len(r.Locals) > 0 {
+				nl.Locals[r.Key] = r.Locals
+			}
 			if r.OutOfSub != "" {
 				nl.Functions[r.Key] = "out-of-subset: " + r.OutOfSub
 			}
@@ -368,6 +376,22 @@ func runCheck(repo, verif, id, tier string, writeLedger bool) int {
 				}
 			}
 			wasProved := inLedger && ledRes == "unsat"
+			if !inLedger && funcChanged {
+				// exits are numbered in source order, so an added or removed return statement renames "post#k@exitN":
+				// the clause counts as proved on the ledgered tree when it was discharged at every exit there
+				if k := strings.LastIndex(o.Name, "@exit"); k >= 0 {
+					prefix, n, all := o.Name[:k+len("@exit")], 0, true
+					for name, res := range led.Obls {
+						if strings.HasPrefix(name, prefix) {
+							n++
+							if res != "unsat" {
+								all = false
+							}
+						}
+					}
+					wasProved = n > 0 && all
+				}
+			}
 			switch {
 			case verdict == "confirmed":
 				lines = append(lines, fmt.Sprintf("VIOLATION property=%s replay=%s obligation=%s %s", id, replayPath, o.Name, detail))
